@@ -110,6 +110,10 @@ func LoadBackendEnsureUser(env *Env) func(*cobra.Command, []string) error {
 
 		_, err = identity.GetUserIdentity(env.Repo)
 		if err != nil {
+			// the command is not going to run, and neither is its CloseBackend: release
+			// the backend here or its lock file stays behind
+			_ = env.Backend.Close()
+			env.Backend = nil
 			return err
 		}
 
